@@ -625,6 +625,9 @@ func decodeLegacyTop(b []byte, strict bool) (Batch, error) {
 		var size int32
 		if !trunc {
 			size = int32(binary.BigEndian.Uint32(inner[off+8:]))
+			if rem > magicOffset && int8(inner[off+magicOffset]) != m.magic {
+				return bt, fmt.Errorf("inner message %d: magic %d does not match the wrapper's magic %d", len(msgs), inner[off+magicOffset], m.magic)
+			}
 			if size < minSize {
 				return bt, fmt.Errorf("inner message %d: size %d below the minimum %d", len(msgs), size, minSize)
 			}
@@ -637,9 +640,6 @@ func decodeLegacyTop(b []byte, strict bool) (Batch, error) {
 			break
 		}
 		total := logOverhead + int(size)
-		if int8(inner[off+magicOffset]) != m.magic {
-			return bt, fmt.Errorf("inner message %d: magic %d does not match the wrapper's magic %d", len(msgs), inner[off+magicOffset], m.magic)
-		}
 		im, err := decodeLegacyMsg(inner[off:off+total], strict)
 		if err != nil {
 			return bt, fmt.Errorf("inner message %d: %w", len(msgs), err)
